@@ -34,15 +34,16 @@ type Project struct {
 }
 
 type Opts struct {
-	Mains     int  // number of main packages (1..4); 0 = random
-	RootMain  bool // one of the mains lives in the module root
-	Libs      int  // number of library packages; 0 = random 2..5
-	InScope   bool // avoid the recorded defect classes
-	Decoys    bool // add test files, testdata, vendor, nested module, non-Go files, look-alike dirs
-	Asm       bool // allow a body-less declaration with an assembly file
-	ChangeP   float64
-	FuncsPer  int
-	SmallBody bool
+	Mains        int  // number of main packages (1..4); 0 = random
+	RootMain     bool // one of the mains lives in the module root
+	Libs         int  // number of library packages; 0 = random 2..5
+	InScope      bool // avoid the recorded defect classes
+	Decoys       bool // add test files, testdata, vendor, nested module, non-Go files, look-alike dirs
+	Asm          bool // allow a body-less declaration with an assembly file
+	ChangeP      float64
+	FuncsPer     int
+	SmallBody    bool
+	NoNestedMain bool
 }
 
 func pkgImportPath(dir string) string {
@@ -120,6 +121,22 @@ func Generate(r *rand.Rand, o Opts) *Project {
 		}
 		p.Pkgs = append(p.Pkgs, pk)
 	}
+	// a main package nested below another main's directory (mainEntries selections must not
+	// match it by prefix)
+	if !o.NoNestedMain && r.Intn(3) == 0 {
+		for _, pk := range p.Pkgs {
+			if pk.IsMain && pk.Dir != "." {
+				nm := &Pkg{Dir: pk.Dir + "/tools/dump", Name: "main", IsMain: true}
+				for j := 0; j < nLibs; j++ {
+					if j != orphan && r.Intn(100) < 50 {
+						nm.Imports = append(nm.Imports, j)
+					}
+				}
+				p.Pkgs = append(p.Pkgs, nm)
+				break
+			}
+		}
+	}
 	// files
 	for pi, pk := range p.Pkgs {
 		nFiles := 1 + r.Intn(3)
@@ -181,8 +198,39 @@ func Generate(r *rand.Rand, o Opts) *Project {
 	if o.Decoys {
 		p.addDecoys(r)
 	}
+	p.addShapes(r)
 	p.Dist = g.Dist
 	return p
+}
+
+// addShapes adds history shapes every project carries: a Go file that exists only in the old
+// revision (deleted), per library a file whose only change is a comment and a type declaration
+// (changed, but no tracking point; it sorts before the other files of its package), and changed
+// Go packages in directories the go tool ignores ("_examples", ".hidden") but the property does not.
+func (p *Project) addShapes(r *rand.Rand) {
+	for _, pk := range p.Pkgs {
+		if pk.IsMain {
+			continue
+		}
+		if r.Intn(2) == 0 {
+			p.ExtraOld[filepath.Join(pk.Dir, "zz_old_only.go")] = fmt.Sprintf("package %s\n\n// OldOnly exists only in the old revision.\nfunc OldOnly(a int) int {\n\ta++\n\treturn a\n}\n", pk.Name)
+		}
+		if r.Intn(2) == 0 {
+			p.ExtraOld[filepath.Join(pk.Dir, "a_types.go")] = fmt.Sprintf("package %s\n\n// Rec is a record.\ntype Rec struct {\n\tA int\n}\n", pk.Name)
+			p.ExtraNew[filepath.Join(pk.Dir, "a_types.go")] = fmt.Sprintf("package %s\n\n// Rec is a record (changed comment).\ntype Rec struct {\n\tA int\n\tB string\n}\n", pk.Name)
+		}
+	}
+	hello := func(k int) string {
+		return fmt.Sprintf("package hello\n\n// Hello is example code.\nfunc Hello(a int) int {\n\ta += %d\n\treturn a\n}\n", k)
+	}
+	if r.Intn(2) == 0 {
+		p.ExtraOld["_examples/hello/hello.go"] = hello(1)
+		p.ExtraNew["_examples/hello/hello.go"] = hello(2)
+	}
+	if r.Intn(3) == 0 {
+		p.ExtraOld[".hidden/h/h.go"] = strings.Replace(hello(3), "package hello", "package h", 1)
+		p.ExtraNew[".hidden/h/h.go"] = strings.Replace(hello(4), "package hello", "package h", 1)
+	}
 }
 
 func (p *Project) addDecoys(r *rand.Rand) {
